@@ -7,12 +7,16 @@ the PMF draws with CobaRandom.tla and the real constants.  For every case and ev
 floats that look like probabilities, strings, one-hot tuples, lists, sparse dicts) a synthetic learner that
 writes the intended answers in that format and layout is put behind the real SafeLearner: predict's output must
 be the meaning, the returned action must be one of the offered actions, and the kwargs handed to learn must
-arrive unchanged (per row when the learner cannot take batches)."""
+arrive unchanged (per row when the learner cannot take batches).  Every case with kwargs is also replayed with the
+kwargs handed over in each other kind of mapping (PAYLOADS: dict subclass, read-only proxy, UserDict, user Mapping,
+HashableSparse - Kwargs is Mapping[str, Any]), directly and through SequentialCB."""
 import json, random
+import collections as _collections, types as _types
+from collections import abc as _abc
 from .. import tlc, tracecheck
 
 FINISH = dict(level="model_checking",
-              rule="a case = one (format, kwargs, layout, batch size, #actions, seed, action kind): a synthetic learner behind the real SafeLearner, three predict calls + learn; distinct = distinct cases")
+              rule="a case = one (format, kwargs, layout, batch size, #actions, seed, action kind[, kind of kwargs mapping]): a synthetic learner behind the real SafeLearner, three predict calls + learn; distinct = distinct cases")
 PROBS = [0.25, 0.5, 1.0]
 BASE = {1: [4], 2: [1, 3], 3: [1, 2, 1]}
 
@@ -25,6 +29,28 @@ class B(list):
 # between evaluator and learner use for their own parameters (every name carries the same value, the spec's k)
 KWNAMES = ["k", "key", "method", "args", "has_out", "kwargs", "seed"]
 def KW(c): return {n: c for n in KWNAMES}
+
+
+# ... and the CONTAINER the learner hands them over in is its own business too: coba.primitives.Kwargs is Mapping[str, Any], so any
+# mapping is a kwargs payload - a plain dict (the default rendering), a dict subclass, a read-only view of the learner's own state,
+# a collections.UserDict, a user-defined collections.abc.Mapping, coba's own read-only HashableSparse.  Pure rendering of the
+# spec's abstract kwargs value k: the meaning of the answer (PredFormat.tla Expected) does not depend on it.
+class UserMap(_abc.Mapping):
+    def __init__(self, d): self._d = dict(d)
+    def __getitem__(self, k): return self._d[k]
+    def __iter__(self): return iter(self._d)
+    def __len__(self): return len(self._d)
+    def __repr__(self): return "UserMap(%r)" % self._d
+
+
+def _hashable_sparse(d):
+    from coba.primitives import HashableSparse
+    return HashableSparse(dict(d))
+
+
+PAYLOAD_KINDS = ("str", "int01")     # action kinds the non-dict payloads are replayed with
+PAYLOADS = {"dict": dict, "ordered": _collections.OrderedDict, "proxy": lambda d: _types.MappingProxyType(dict(d)),
+            "userdict": _collections.UserDict, "usermap": UserMap, "hsparse": _hashable_sparse}
 
 
 def alt_actions_of(kind, nA):
@@ -59,7 +85,8 @@ def actions_of(kind, nA):
 class FmtLearner:
     """Writes its intended answers in one format / layout.  Intention for the row with context id c:
     action index c mod nA, probability PROBS[c mod 3], pmf BASE rotated by c mod nA, kwargs {'k': c}."""
-    def __init__(self, fmt, kw, layout, nA, oh=False, scale=1):
+    def __init__(self, fmt, kw, layout, nA, oh=False, scale=1, payload="dict"):
+        self.mk = PAYLOADS[payload]   # the mapping type the kwargs are handed over in
         self.fmt = fmt; self.kw = kw; self.layout = layout; self.nA = nA; self.learned = []; self.calls = 0; self.oh = oh
         self.scale = scale   # PMFs as learners really produce them (rounded, float32): the entries sum to 1 only within the documented tolerance
 
@@ -83,12 +110,12 @@ class FmtLearner:
         batched = is_batch(context) or is_batch(actions)
         if batched and self.layout in ("none", "notbatch"): raise TypeError("this learner does not take batches")
         if not batched:
-            v = self.row(context, actions); kw = KW(context)
+            v = self.row(context, actions); kw = self.mk(KW(context))
             if not self.kw: return v
             if isinstance(v, tuple) and not self.fmt.endswith("*") and self.fmt == "AP": return (v[0], v[1], kw)
             return (v, kw)
         rows = [self.row(c, a) for c, a in zip(context, actions)]
-        kws = [KW(c) for c in context]
+        kws = [self.mk(KW(c)) for c in context]
         if self.layout == "row":
             if not self.kw: return rows
             out = []
@@ -100,11 +127,11 @@ class FmtLearner:
         if self.fmt.endswith("*"):
             key = {"AX": "action", "AP": "action_prob", "PM": "pmf"}[base]
             col = {key: [r[key] for r in rows]}
-            return [col, {n: [k[n] for k in kws] for n in KWNAMES}] if self.kw else col
+            return [col, self.mk({n: [k[n] for k in kws] for n in KWNAMES})] if self.kw else col
         if base == "AX": cols = [rows]
         elif base == "AP": cols = [tuple(r[0] for r in rows), tuple(r[1] for r in rows)]
         else: cols = [list(x) for x in zip(*rows)]
-        if self.kw: cols = cols + [{n: [k[n] for k in kws] for n in KWNAMES}]
+        if self.kw: cols = cols + [self.mk({n: [k[n] for k in kws] for n in KWNAMES})]
         return cols if len(cols) > 1 or self.kw or base == "PM" else cols[0]
 
     def learn(self, context, action, reward, probability, **kwargs):
@@ -140,6 +167,15 @@ def run(ctx):
                 if bad:
                     sig, what = bad
                     ctx.violation(sig, "%s   case=%s kind=%s action-sets=%s" % (what, json.dumps(cs, sort_keys=True), kind, "A,B,A" if vary else "A,A,A"), dict(case=cs, kind=kind, vary=vary, expected=c["expected"]))
+            # "all kwargs payloads": the same case with the kwargs handed over in every other kind of mapping (Kwargs = Mapping[str, Any])
+            if kw and kind in PAYLOAD_KINDS:
+                for payload in PAYLOADS:
+                    if payload == "dict": continue
+                    ctx.case(json.dumps([cs, kind, "kwargs-in", payload], sort_keys=True))
+                    bad = one(SafeLearner, cs, c["expected"], kind, False, 1, payload)
+                    if bad:
+                        sig, what = bad
+                        ctx.violation(sig + ":kwargs-mapping", "%s   case=%s kind=%s kwargs handed over in a %s" % (what, json.dumps(cs, sort_keys=True), kind, payload), dict(case=cs, kind=kind, payload=payload, expected=c["expected"]))
             # the PMF a learner states is reported as stated, also when its entries sum to 1 only within the tolerance (the draw is by
             # share of the total, which for a common factor is the draw of the exact PMF)
             if fmt.rstrip("*") == "PM" and not cs.get("oh") and nA > 1 and kind in ("str", "int1x"):
@@ -155,10 +191,11 @@ def run(ctx):
         cs = c["case"]
         if cs["layout"] != "none" or cs["fmt"] not in ("PM", "PM*") or cs.get("oh"): continue
         for how in ("evaluator-seed", "experiment-seed"):
-            ctx.case(json.dumps([cs, how], sort_keys=True))
-            bad = through_evaluator(SequentialCB, CobaContext, cs, c["expected"], how)
-            if bad:
-                ctx.violation(bad[0], "%s   case=%s" % (bad[1], json.dumps(cs, sort_keys=True)), dict(case=cs, how=how, expected=c["expected"]))
+            for payload in (PAYLOADS if cs["kw"] else ("dict",)):
+                ctx.case(json.dumps([cs, how] + ([payload] if payload != "dict" else []), sort_keys=True))
+                bad = through_evaluator(SequentialCB, CobaContext, cs, c["expected"], how, payload)
+                if bad:
+                    ctx.violation(bad[0] + (":kwargs-mapping" if payload != "dict" else ""), "%s   case=%s kwargs handed over in a %s" % (bad[1], json.dumps(cs, sort_keys=True), payload), dict(case=cs, how=how, payload=payload, expected=c["expected"]))
     ctx.traces = ctx.evaluations
     ctx.assumptions += ["learners return the offered action objects themselves; a bare tuple / list / sparse-dict action must use the {'action': ..} hint (the property's own domain rule)",
                         "PMF entries are multiples of 1/4 so that the code's float comparison and the spec's integer comparison coincide"]
@@ -171,7 +208,7 @@ class _Env:
     def read(self): return iter([dict(i) for i in self.its])
 
 
-def through_evaluator(SequentialCB, CobaContext, cs, expected, how):
+def through_evaluator(SequentialCB, CobaContext, cs, expected, how, payload="dict"):
     """The three calls of a case as three interactions of an environment evaluated by SequentialCB: the recorded action and
     probability are the draw of the evaluator's seed (how = evaluator-seed; a different experiment seed is in the store)
     or, for an evaluator without a seed, of the experiment's seed."""
@@ -179,7 +216,7 @@ def through_evaluator(SequentialCB, CobaContext, cs, expected, how):
     acts = actions_of("str", nA)
     rows = sorted((e for e in expected if e["row"] == 1), key=lambda e: e["call"])
     its = [{"context": 10 * e["call"] + 1, "actions": list(acts), "rewards": [0.5] * nA} for e in rows]
-    lrn = FmtLearner(cs["fmt"], cs["kw"], "none", nA)
+    lrn = FmtLearner(cs["fmt"], cs["kw"], "none", nA, payload=payload)
     saved = dict(CobaContext.store)
     try:
         CobaContext.store["experiment_seed"] = 99 if how == "evaluator-seed" else seed
@@ -196,10 +233,10 @@ def through_evaluator(SequentialCB, CobaContext, cs, expected, how):
     return None
 
 
-def one(SafeLearner, cs, expected, kind, vary=False, scale=1):
+def one(SafeLearner, cs, expected, kind, vary=False, scale=1, payload="dict"):
     fmt, kw, layout, nA, bs, seed = cs["fmt"], cs["kw"], cs["layout"], cs["nA"], cs["bsize"], cs["seed"]
     acts_a = actions_of(kind, nA); acts_b = alt_actions_of(kind, nA)
-    lrn = FmtLearner(fmt, kw, layout, nA, cs.get("oh", False), scale)
+    lrn = FmtLearner(fmt, kw, layout, nA, cs.get("oh", False), scale, payload)
     sl = SafeLearner(lrn, seed)
     exp_by_call = {}
     for e in expected: exp_by_call.setdefault(e["call"], []).append(e)
